@@ -205,7 +205,8 @@ class KernelEvalBase:
         nspin, N0, Nsamp = X0T.shape
         N1 = self.N1
         if force_polarize and dfdX1.shape[0] == 2 and nspin == 1:
-            dfdX1 = dfdX1[:1]
+            # both (identical) channels depend on the single input channel
+            dfdX1 = 2 * dfdX1[:1]
         if self.mode == "SEP" or self.mode == "POL":
             dfdX0T = np.zeros_like(X0T)
             dfdX1 = dfdX1.reshape(nspin, Nsamp, N1)
